@@ -223,7 +223,7 @@ def write_entropy_image(bw, rng, width, height, style, green_max=255, red_syms=N
     else:
         bw.put(0, 1)
     cache_len = (1 << cache_bits) if cache_bits else 0
-    deep = style in ("deep", "extrabits", "arbdeep") or rng.random() < 0.3
+    deep = style in ("deep", "extrabits", "arbdeep", "extradeep") or rng.random() < 0.3
     maxlen = 15 if deep else rng.choice([3, 5, 8, 11, 15])
 
     def pick(lo, hi, kmax):
@@ -239,6 +239,16 @@ def write_entropy_image(bw, rng, width, height, style, green_max=255, red_syms=N
         dsyms = [rng.randint(0, 39)]
         rs = red_syms if red_syms is not None else rng.sample(range(256), rng.choice([16, 40, 120]))
         bs, as_ = rng.sample(range(256), rng.choice([16, 40, 120])), rng.sample(range(256), rng.choice([16, 40, 120]))
+    elif style == "extradeep":
+        # like extrabits, but the green code is deep and the length symbols with 10 extra bits (278, 279) carry its LONGEST
+        # codes: a back-reference then costs green (up to 15) + 10 + distance code + 18 bits, the worst case of the read-ahead
+        lit = rng.sample(range(0, green_max + 1), min(green_max + 1, rng.choice([12, 14, 40])))
+        lens_syms = [256 + 22, 256 + 23]
+        csyms = []
+        dsyms = sorted(set([1, 38, 39] + ([rng.randint(0, 39)] if rng.random() < .5 else [])))
+        rs, bs, as_ = [rng.randint(0, 255)], [rng.randint(0, 255)], [rng.randint(0, 255)]
+        if red_syms is not None:
+            rs = red_syms
     elif style == "extrabits":
         lit = [rng.randint(0, green_max)]
         lens_syms = sorted(set([256 + rng.choice([20, 21, 22, 23])] + ([256 + rng.randint(0, 23)] if rng.random() < .5 else [])))
@@ -258,6 +268,13 @@ def write_entropy_image(bw, rng, width, height, style, green_max=255, red_syms=N
     gsyms = lit + lens_syms + csyms
     codes_l = [make_code(rng, gsyms, maxlen, deep), make_code(rng, rs, maxlen, deep), make_code(rng, bs, maxlen, deep),
                make_code(rng, as_, maxlen, deep), make_code(rng, dsyms, min(maxlen, 15), deep)]
+    if style == "extradeep":
+        # give the length symbols the longest green codes
+        g = codes_l[0]
+        order = sorted(g, key=lambda x: -g[x])
+        longest = [g[x] for x in order]
+        rest = [x for x in order if x not in lens_syms]
+        codes_l[0] = dict(zip(lens_syms + rest, longest))
     alph = [256 + 24 + cache_len, 256, 256, 256, 40]
     for a, cl in zip(alph, codes_l):
         write_code(bw, rng, a, cl)
@@ -267,7 +284,7 @@ def write_entropy_image(bw, rng, width, height, style, green_max=255, red_syms=N
     dlen = max(len(c) for c in D.values()) if len(D) > 1 else 0
     readahead = glen + max(arb, glen + 36 + dlen)
     idx, npx_tokens, max_iter_bits = 0, 0, 0
-    w_back = {"extrabits": 0.85, "arbdeep": 0.02}.get(style, rng.choice([0.0, 0.1, 0.4, 0.8]))
+    w_back = {"extrabits": 0.85, "extradeep": 0.85, "arbdeep": 0.02}.get(style, rng.choice([0.0, 0.1, 0.4, 0.8]))
     while idx < n:
         start = len(bw.bits)
         kind = "lit"
@@ -340,14 +357,14 @@ def build_lossless(rng, style="plain", pixel_budget=3000):
     """A stream for LosslessImage::read(width, height): returns (width, height, bytes, facts)."""
     facts = {"style": style, "images": []}
     bw = BW()
-    if style == "extrabits":
+    if style in ("extrabits", "extradeep"):
         # one predictor sub-image with up to a million pixels, filled by long back-references with many extra bits
-        W = H = rng.choice([2048, 4096, 4096])
+        W = H = rng.choice([2048, 4096, 4096]) if style == "extrabits" else 4096
         bw.put(1, 1)
-        bw.put(0, 2)
+        bw.put(0 if style == "extrabits" else rng.choice([0, 1]), 2)
         bw.put(0, 3)
-        facts["images"].append(write_entropy_image(bw, rng, ceil_div(W, 4), ceil_div(H, 4), "extrabits", green_max=13,
-                                                   cache_bits=0))
+        facts["images"].append(write_entropy_image(bw, rng, ceil_div(W, 4), ceil_div(H, 4), style,
+                                                   green_max=13 if style == "extrabits" else 255, cache_bits=0))
         width = W
     else:
         W, H = rng.randint(1, 300), rng.randint(1, 300)
@@ -385,7 +402,7 @@ def build_lossless(rng, style="plain", pixel_budget=3000):
         bw.put(0, 1)
     cache_len = (1 << cache_bits) if cache_bits else 0
     groups = 1
-    if style != "extrabits" and rng.random() < 0.4:
+    if style not in ("extrabits", "extradeep") and rng.random() < 0.4:
         bw.put(1, 1)
         opts = [b for b in range(8) if ceil_div(width, 1 << (b + 2)) * ceil_div(H, 1 << (b + 2)) <= pixel_budget]
         b = rng.choice(opts) if opts else 7
